@@ -9,6 +9,7 @@
 //! The op lines (text before the TAB) are fed unchanged to the Lean model driver, whose
 //! answers are diffed against the implementation answers by `/verif/check`.
 
+mod cksum;
 mod seg;
 mod util;
 
@@ -60,6 +61,7 @@ fn main() {
     let mut out = std::io::BufWriter::with_capacity(1 << 20, stdout.lock());
     match engine.as_str() {
         "seg" => seg::run(&opts, &mut out),
+        "cksum" => cksum::run(&opts, &mut out),
         other => {
             eprintln!("unknown engine {other}");
             std::process::exit(2);
